@@ -124,7 +124,7 @@ class InteractionsIter(_ListingIter):
             return self.forbid(ctx, 'C02.listing.no_exception.%s' % outcome[1], tags=T, note=outcome[2])
         gh = getattr(outcome[1], 'ghost', None)
         if gh is None or '$ypair' not in gh:
-            return self.forbid(ctx, 'C02.listing.yields_interaction_tuples', tags=T)
+            return self.shape(ctx, 'C02.listing.yields_interaction_tuples', tags=T)
         Y = gh['$ypair'].z
         a, b = c.qa, c.qb
         ctx.oblige('C02.listing.each_interaction_once_in_one_orientation', z3.Implies(a != b, Y[a][b] + Y[b][a] == b2i(self.R(c, a, b))), tags=T)
@@ -158,7 +158,7 @@ class OutInteractionsIter(_ListingIter):
             return self.forbid(ctx, 'C02.listing.no_exception.%s' % outcome[1], tags=T, note=outcome[2])
         gh = getattr(outcome[1], 'ghost', None)
         if gh is None or '$ypair' not in gh:
-            return self.forbid(ctx, 'C02.listing.yields_interaction_tuples', tags=T)
+            return self.shape(ctx, 'C02.listing.yields_interaction_tuples', tags=T)
         Y = gh['$ypair'].z
         ctx.oblige('C02.listing.each_out_interaction_once_oriented', Y[c.qa][c.qb] == b2i(self.R(c, c.qa, c.qb)), tags=T)
         self.check_unchanged(ctx, c)
@@ -198,7 +198,7 @@ class InInteractionsIter(_ListingIter):
             return self.forbid(ctx, 'C02.listing.no_exception.%s' % outcome[1], tags=T, note=outcome[2])
         gh = getattr(outcome[1], 'ghost', None)
         if gh is None or '$ypair' not in gh:
-            return self.forbid(ctx, 'C02.listing.yields_interaction_tuples', tags=T)
+            return self.shape(ctx, 'C02.listing.yields_interaction_tuples', tags=T)
         Y = gh['$ypair'].z
         ctx.oblige('C02.listing.each_in_interaction_once_oriented', Y[c.qa][c.qb] == b2i(self.R(c, c.qa, c.qb)), tags=T)
         self.check_unchanged(ctx, c)
